@@ -117,3 +117,59 @@ def variant_index(prog, adt_pretty, name):
         if v["name"] == name:
             return v["vi"]
     return None
+
+
+def byte_content(it, S, v, depth=0):
+    """the bytes of a sequence value when every one of them is a known constant (a literal, a constant array, a vector built from
+    such pieces by to_vec / extend_from_slice / push / concat, a constant sub-slice of one), else None"""
+    from ..models import value_items
+    from .. import interp as I
+    if depth > 8 or not isinstance(v, tuple):
+        return None
+    if is_const(v):
+        c = v[2]
+        if isinstance(c, tuple) and c and c[0] == "b":
+            return tuple(c[1])
+        if isinstance(c, tuple) and c and c[0] == "s":
+            return tuple(c[1].encode())
+        return None
+    h = v[0]
+    if h == "ref":
+        x = S.read(v[1])
+        if I.root_is_promoted(v[1]):
+            x = I.promoted_read(v[1], x)
+        return byte_content(it, S, x, depth + 1)
+    items = value_items(v)
+    if items is not None:
+        out = []
+        for e in items:
+            if isinstance(e, tuple) and e and e[0] == "splice":
+                b = byte_content(it, S, e[1], depth + 1)
+                if b is None:
+                    return None
+                out.extend(b)
+            else:
+                c = const_val(e)
+                if not isinstance(c, int):
+                    return None
+                out.append(c & 0xFF)
+        return tuple(out)
+    if h == "upd":
+        return byte_content(it, S, v[1], depth + 1)
+    if h == "model" and v[1] in ("to_vec", "into_bytes"):
+        return byte_content(it, S, v[2], depth + 1)
+    if h == "model" and v[1] == "view":
+        b = byte_content(it, S, v[2], depth + 1)
+        st, ln = const_val(v[3]), const_val(v[4])
+        if b is None or not isinstance(st, int) or not isinstance(ln, int) or st + ln > len(b):
+            return None
+        return b[st:st + ln]
+    if h == "agg" and v[1] == "array":
+        out = []
+        for e in v[3]:
+            c = const_val(e)
+            if not isinstance(c, int):
+                return None
+            out.append(c & 0xFF)
+        return tuple(out)
+    return None
